@@ -163,7 +163,11 @@ func (g *G) sources(o srcOpts) influxql.Sources {
 		if i > 0 {
 			g.B.P(",")
 		}
-		if o.subq && !g.Opt.NoSubq && o.depth > 0 && g.Rg.P(0.2) {
+		sp := g.Opt.SubqProb
+		if sp == 0 {
+			sp = 0.2
+		}
+		if o.subq && !g.Opt.NoSubq && o.depth > 0 && g.Rg.P(sp) {
 			g.B.P("(")
 			sub := g.selectStmt(func(c string) bool {
 				if c == "INTO" {
@@ -585,7 +589,11 @@ var cardClauses = []string{"EXACT", "ON", "FROM", "WHERE", "GROUPBY", "LIMIT", "
 
 func init() {
 	reg("Select", selClauses, func(g *G, on func(string) bool) influxql.Statement {
-		return g.selectStmt(on, selOpts{depth: 2})
+		d := 2
+		if g.Opt.SubqDepth > 0 {
+			d = g.Opt.SubqDepth
+		}
+		return g.selectStmt(on, selOpts{depth: d})
 	})
 	reg("Explain", append([]string{"ANALYZE", "VERBOSE"}, selClauses...), func(g *G, on func(string) bool) influxql.Statement {
 		e := &influxql.ExplainStatement{}
@@ -598,7 +606,11 @@ func init() {
 			e.Verbose = true
 			g.B.Kw("VERBOSE")
 		}
-		e.Statement = g.selectStmt(on, selOpts{depth: 1})
+		d := 1
+		if g.Opt.SubqDepth > 0 {
+			d = g.Opt.SubqDepth
+		}
+		e.Statement = g.selectStmt(on, selOpts{depth: d})
 		return e
 	})
 	reg("Delete", []string{"FROM", "WHERE"}, func(g *G, on func(string) bool) influxql.Statement {
